@@ -26,13 +26,31 @@ from ..mutate import mutate, remove_stmts, replace_expr, replace_stmt, parse_stm
 from ..model import AnalysisError
 from ..x_taint import flow_taint, expr_tainted, HelperSummaries
 
+from ..x_http import norm_func
+
+# private helpers that the rules model by name (sanitisers / summarised effects) and therefore must stay calls
+KEEP_CALLS = {"_format_chunk", "_convert_header_value", "_clear_representation_headers", "_can_keep_alive", "_compressible_type",
+              "_on_write_complete", "_finish_request", "_clear_callbacks"}
+
+
+def F(ck, relpath, qualname):
+    """The anchored function with its private same-file helpers inlined (function splitting is followed, depth 3)."""
+    fi = ck.func(relpath, qualname)
+    try:
+        return norm_func(ck.repo, fi, depth=3, no_inline=KEEP_CALLS)
+    except AnalysisError:
+        raise
+    except Exception as e:  # the normaliser must never turn into a verdict
+        raise AnalysisError("cannot normalise %s: %r" % (qualname, e))
+
+
 TECHNIQUE = "flow-sensitive source-to-sink taint on the CFG (request path -> self.redirect) with startswith('//') guards and lstrip('/') sanitisation"
 EXPLANATION = (
     "For the trailing-slash decorators, the static-directory redirect and the authenticated decorator the first argument of every "
     "self.redirect call is traced back, path-sensitively, to self.request.path/uri.  A value derived from them is 'possibly protocol-relative' "
     "until a startswith('//') rejection guards it or lstrip('/') removed the leading slashes."
 )
-NOT_DECIDED = "browser interpretation of backslashes or control characters in the path; a value that becomes empty after lstrip and is then followed by further request data; application-configured redirect targets"
+NOT_DECIDED = "a scheme-qualified target in the static-directory redirect (needs a route that is not anchored at '/' and a directory named like a URL scheme under the static root); browser interpretation of backslashes or control characters in the path; a value that becomes empty after lstrip and is then followed by further request data; application-configured redirect targets"
 
 WEB = "tornado/web.py"
 ENCODERS = ("urlencode", "url_escape", "url_concat")
@@ -68,6 +86,51 @@ def _guard_cleaner(n, kind, tainted):
         if p and "//" in vals:
             return [p]
     return []
+
+
+def _flat_add(e):
+    if isinstance(e, ast.BinOp) and isinstance(e.op, ast.Add):
+        return _flat_add(e.left) + _flat_add(e.right)
+    return [e]
+
+
+def _slash_headed(x: ast.AST):
+    """Scheme pass: a concatenation whose first part is a literal starting with "/" is a path on this host
+    as far as the scheme is concerned (whether it is protocol-relative is the other pass's business)."""
+    if isinstance(x, ast.BinOp) and isinstance(x.op, ast.Add):
+        parts = _flat_add(x)
+        h = parts[0]
+        if isinstance(h, ast.Constant) and isinstance(h.value, str) and h.value.startswith("/"):
+            return False
+    return None
+
+
+def _leading_slash_cleaner(n, kind, tainted):
+    """``P.startswith("/")`` taken true: P is not scheme-qualified."""
+    if n.kind != "test" or kind != "true":
+        return []
+    t = n.ast
+    if isinstance(t, ast.Call) and isinstance(t.func, ast.Attribute) and t.func.attr == "startswith" and len(t.args) == 1 and isinstance(t.args[0], ast.Constant) and isinstance(t.args[0].value, str) and t.args[0].value.startswith("/"):
+        p = q.dotted(t.func.value)
+        return [p] if p else []
+    return []
+
+
+def check_no_scheme(ck, fi):
+    """The trailing-slash decorators run for any routed request, including an absolute-form request target
+    (``GET http://other.example/x/``) whose path does not start with "/": their redirect target must be
+    anchored to this host by a literal leading "/" (or the path must be known to start with "/")."""
+    sites = _redirect_sites(fi)
+    hs = HelperSummaries(ck.repo, fi, lambda h: _leading_slash_cleaner, (), _slash_headed, self_classes=("RequestHandler",))
+    states = flow_taint(fi, PATH_SOURCES, clean_on_edge=hs.cleaner(_leading_slash_cleaner), expr_hook=hs.expr_hook, on_node=hs.on_node)
+    for node, c in sites:
+        target = q.arg(c, 0, "url")
+        sts = states.get(node.id, [])
+        if target is None or not sts:
+            raise AnalysisError("%s: redirect target/call not analysable" % fi.qualname)
+        bad = any(expr_tainted(target, t, expr_hook=hs.expr_hook) for t in sts)
+        ck.ob("C28.no-scheme", fi, c, not bad, "a redirect target taken from the request path is anchored by a literal leading '/' on every path to the call (an absolute-form request target cannot become a scheme-qualified Location)")
+    return len(sites)
 
 
 def _redirect_sites(fi):
@@ -120,12 +183,15 @@ def check_login_redirect(ck, fi):
 
 def run(ck):
     ck.rule("C28.same-site", "every self.redirect whose target derives from self.request.path/uri is, on all paths, behind a startswith('//') rejection of that path or built from its lstrip('/')")
+    ck.rule("C28.no-scheme", "the trailing-slash decorators build their target as a literal '/' followed by request data (or behind a startswith('/') test), so it is never scheme-qualified")
     ck.rule("C28.login-only", "authenticated redirects to self.get_login_url(), with request data only inside urlencode(...)")
     ck.rule("C28.inventory", "the redirects tornado/web.py derives from the request are exactly the anchored ones (a new request-derived redirect must be analysed)")
     total = 0
     for qn, kind in ANCHORS:
-        fi = ck.func(WEB, qn)
+        fi = F(ck, WEB, qn)
         n = check_path_redirects(ck, fi) if kind == "path" else check_login_redirect(ck, fi)
+        if kind == "path" and "wrapper" in qn:
+            check_no_scheme(ck, fi)
         ck.floor("C28.same-site" if kind == "path" else "C28.login-only", n, 1, "self.redirect calls in %s" % qn)
         total += n
     # inventory: any other function of web.py that redirects to something request-derived gets the same rule
@@ -191,6 +257,8 @@ MUTANTS = [
     ("removeslash: leading-slash normalisation undone (F20 re-introduced)", _in("removeslash.<locals>.wrapper", remove_stmts(_is_strip_fix)), "C28.same-site"),
     ("addslash: leading-slash normalisation undone (F20 re-introduced)", _in("addslash.<locals>.wrapper", replace_expr(_unstrip, lambda n: n.right.func.value)), "C28.same-site"),
     ("addslash: lstrip() without '/' (strips whitespace only)", _in("addslash.<locals>.wrapper", replace_expr(lambda n: isinstance(n, ast.Call) and q.call_attr(n) == "lstrip", lambda n: ast.Call(func=n.func, args=[], keywords=[]))), "C28.same-site"),
+    ("removeslash: normalisation only when the target starts with '//' (seeded C28-adv3)", _in("removeslash.<locals>.wrapper", replace_stmt(_is_strip_fix, lambda st: [ast.If(test=parse_expr("uri.startswith('//')"), body=[st], orelse=[])])), "C28.no-scheme"),
+    ("addslash: only the slashes are stripped, no leading '/' put back", _in("addslash.<locals>.wrapper", replace_expr(_unstrip, lambda n: n.right)), "C28.no-scheme"),
     ("removeslash: raw path re-assigned after the normalisation", _in("removeslash.<locals>.wrapper", _reassign_after_sanitizer), "C28.same-site"),
     ("addslash: '//' prepended instead of '/'", _in("addslash.<locals>.wrapper", replace_expr(_unstrip, lambda n: ast.BinOp(left=ast.Constant(value="//"), op=ast.Add(), right=n.right))), "C28.same-site"),
     ("authenticated: falls back to the requested URI when no login URL is configured", _in("authenticated.<locals>.wrapper", replace_stmt(lambda st: isinstance(st, ast.Assign) and "get_login_url" in _u(st.value), lambda st: [parse_stmt("url = self.get_login_url() or self.request.uri")])), "C28.login-only"),
